@@ -23,6 +23,23 @@ PROP = "C12"
 ADDERS = ("setdefault", "update", "__setitem__")
 
 
+def _constructed(ctx: Ctx, f: Func, e: ast.AST, depth: int) -> List[str]:
+    """program classes constructed inside the expression, directly or by a package factory it calls"""
+    out: List[str] = []
+    for x in ast.walk(e):
+        if isinstance(x, ast.Call):
+            d = ctx.prog.dotted(f, x.func)
+            if d in ctx.prog.classes:
+                out.append(d)
+            elif depth < 2:
+                fs, _ = ctx.prog.callees(f, x, ctx._types)
+                for g in fs:
+                    for r in g.own_nodes():
+                        if isinstance(r, ast.Return) and r.value is not None:
+                            out += _constructed(ctx, g, r.value, depth + 1)
+    return out
+
+
 def find_classes(ctx: Ctx) -> Tuple[Class, Class, str, str, str]:
     """(wrapper store class, cache class, wrapper's cache attribute, wrapper's wrapped-store attribute, cache's mapping attribute)"""
     prog = ctx.prog
@@ -37,8 +54,7 @@ def find_classes(ctx: Ctx) -> Tuple[Class, Class, str, str, str]:
             if isinstance(n, (ast.Assign, ast.AnnAssign)):
                 t = n.targets[0] if isinstance(n, ast.Assign) else n.target
                 if isinstance(t, ast.Attribute) and isinstance(t.value, ast.Name) and t.value.id == "self" and n.value is not None:
-                    built = [d for d in (prog.dotted(init, x.func) for x in ast.walk(n.value) if isinstance(x, ast.Call))
-                             if d in prog.classes and d not in prog.subclasses(STORE_IFACE) and d != STORE_IFACE]
+                    built = [d for d in _constructed(ctx, init, n.value, 0) if d not in prog.subclasses(STORE_IFACE) and d != STORE_IFACE]
                     if built:
                         # the cache object (possibly under a conditional expression)
                         cache_attr, cache_cls = t.attr, prog.classes[built[0]]
@@ -70,6 +86,24 @@ def _self_attr_call(n: ast.AST, attr: str) -> Optional[str]:
     return None
 
 
+def _fresh_cache(ctx: Ctx, f: Func, v: ast.AST, cache: Class, depth: int) -> bool:
+    """v is a construction of the cache class, or a call of a package function / method whose every return is one"""
+    if not isinstance(v, ast.Call):
+        return False
+    if ctx.prog.dotted(f, v.func) == cache.qname:
+        return True
+    if depth >= 2:
+        return False
+    fs, _ = ctx.prog.callees(f, v, ctx._types)
+    if not fs:
+        return False
+    for g in fs:
+        rets = [r for r in g.own_nodes() if isinstance(r, ast.Return)]
+        if not rets or not all(r.value is not None and _fresh_cache(ctx, g, r.value, cache, depth + 1) for r in rets):
+            return False
+    return True
+
+
 def cache_ownership(ctx: Ctx, rule: str) -> None:
     """the wrapper's cache object is created by the wrapper's constructor and never shared with another store"""
     rep = ctx.report
@@ -83,7 +117,7 @@ def cache_ownership(ctx: Ctx, rule: str) -> None:
         desc = f"self.{cache_attr} is only ever a fresh {cache.name} built by the constructor with the configured bound"
         wit = []
         for f, v, st in stores:
-            fresh = isinstance(v, ast.Call) and prog.dotted(f, v.func) == cache.qname
+            fresh = _fresh_cache(ctx, f, v, cache, 0)
             if f.name != "__init__" or not fresh:
                 wit.append(f"{f.loc(st)}: `{unparse(st, 80)}`: the cache can be an object built elsewhere (with another capacity, filled through another store)")
         leaks = []
@@ -195,6 +229,17 @@ def run(ctx: Ctx) -> None:
         if ctor and ctor[0].args:
             a0 = ctor[0].args[0]
             okc = isinstance(a0, ast.Name) and a0.id in wi.params
+        if not ctor:
+            # built by a factory of the package: the factory passes its own parameter, the constructor passes its own to the factory
+            from ..flow import bind_arg
+            for call in [n for n in wi.own_nodes() if isinstance(n, ast.Call)]:
+                fs_, _ = prog.callees(wi, call, ctx._types)
+                for g in fs_:
+                    inner = [n for n in g.own_nodes() if isinstance(n, ast.Call) and prog.dotted(g, n.func) == cache.qname]
+                    if inner and inner[0].args and isinstance(inner[0].args[0], ast.Name) and inner[0].args[0].id in g.params:
+                        outer = bind_arg(g, call, inner[0].args[0].id)
+                        ctor = inner
+                        okc = bool(outer) and all(isinstance(o, ast.Name) and o.id in wi.params for o in outer)
         capdef = [n for n in ci.own_nodes() if isinstance(n, ast.Assign) and isinstance(n.targets[0], ast.Attribute) and n.targets[0].attr == cap_attr]
         okd = bool(capdef) and isinstance(capdef[0].value, ast.Name) and capdef[0].value.id in ci.params
         if okc and okd:
